@@ -3,7 +3,9 @@
 
    Part A  trailing `//` comments: the comment pre-pass strip_comments_outside_python returns the
            same list for the decorated and the undecorated input, hence `parse` does (any extractors,
-           any oracles).
+           any oracles).  Since fix F17k (story lines are stored right-stripped) the line's own
+           trailing blanks no longer matter, except on the line that closes a Python block (stored
+           as `bare`).
    Part B  `#` comment lines inserted where the main loop is at top level.
    Part C  legacy `<<...>>` and `@...:` block headers are classified alike by the conditional
            extractor.  *)
@@ -178,18 +180,51 @@ Fixpoint within (dec : list (option dcomment)) (mask : list bool) : bool :=
   | Some d :: dr, m :: mr => m && sep_ok d && within dr mr
   end.
 
-(* the decorated lines have no trailing whitespace of their own (or carry a comment already) *)
+(* a line has no trailing whitespace of its own (or carries a comment already) *)
 Definition tidy (l : string) : bool := String.eqb (rstrip (bare_of l)) (bare_of l).
 
-Fixpoint tidy_at (dec : list (option dcomment)) (ls : list string) : bool :=
-  match dec, ls with
-  | Some _ :: dr, l :: r => tidy l && tidy_at dr r
-  | None :: dr, _ :: r => tidy_at dr r
-  | _, _ => true
+(* The lines that close a Python block (`stripped == closer`), decided as the pre-pass decides.  They
+   are the only lines of the mask that the pre-pass stores as `bare` and not as `bare.rstrip()`. *)
+Fixpoint closer_mask (rest : list string) (closer : option string) (in_story : bool) (skip : nat)
+  : list bool :=
+  match rest with
+  | [] => []
+  | l :: r =>
+      match skip with
+      | S k => false :: closer_mask r closer in_story k
+      | 0 =>
+          let bare := bare_of l in
+          let stripped := strip bare in
+          match closer with
+          | Some c =>
+              if String.eqb stripped c then true :: closer_mask r None in_story 0
+              else false :: closer_mask r closer in_story 0
+          | None =>
+              if in_story || startswith l ":: " || startswith stripped "@start " then
+                let in_story' := in_story || startswith l ":: " in
+                if startswith stripped "@py" then false :: closer_mask r (Some "@endpy") in_story' 0
+                else if startswith stripped "<<py" then false :: closer_mask r (Some ">>") in_story' 0
+                else if startswith stripped "~ " then
+                  let n := snd (extract_multiline_expression (bare :: r) 0 (drop 2 stripped)) in
+                  false :: closer_mask r None in_story' (n - 1)
+                else false :: closer_mask r None in_story' 0
+              else false :: closer_mask r None in_story 0
+          end
+      end
   end.
 
+(* the decorated lines among those of `cm` are tidy *)
+Fixpoint tidy_at (dec : list (option dcomment)) (cm : list bool) (ls : list string) : bool :=
+  match dec, cm, ls with
+  | Some _ :: dr, true :: mr, l :: r => tidy l && tidy_at dr mr r
+  | _ :: dr, _ :: mr, _ :: r => tidy_at dr mr r
+  | _, _, _ => true
+  end.
+
+(* every decoration sits on a line of the mask with an admissible separator; a decorated line that
+   closes a Python block has no trailing blanks of its own *)
 Definition decorable (dec : list (option dcomment)) (ls : list string) : bool :=
-  within dec (story_mask ls None false 0) && tidy_at dec ls.
+  within dec (story_mask ls None false 0) && tidy_at dec (closer_mask ls None false 0) ls.
 
 (* ---- one line ---- *)
 
@@ -349,16 +384,38 @@ Lemma spcop_0 : forall l r closer in_story,
   | None =>
       if in_story || startswith l ":: " || startswith stripped "@start " then
         let in_story' := in_story || startswith l ":: " in
-        if startswith stripped "@py" then bare :: spcop r (Some "@endpy") in_story' 0
-        else if startswith stripped "<<py" then bare :: spcop r (Some ">>") in_story' 0
+        if startswith stripped "@py" then rstrip bare :: spcop r (Some "@endpy") in_story' 0
+        else if startswith stripped "<<py" then rstrip bare :: spcop r (Some ">>") in_story' 0
         else if startswith stripped "~ " then
-          bare :: spcop r None in_story' (eme_skip r (drop 2 stripped))
-        else bare :: spcop r None in_story' 0
+          rstrip bare :: spcop r None in_story' (eme_skip r (drop 2 stripped))
+        else rstrip bare :: spcop r None in_story' 0
       else l :: spcop r None in_story 0
   end.
 Proof.
   intros l r closer in_story. cbn [strip_comments_outside_python]. fold (bare_of l).
   cbv zeta. rewrite eme_skip_eq. reflexivity.
+Qed.
+
+Lemma cmask_0 : forall l r closer in_story,
+  closer_mask (l :: r) closer in_story 0 =
+  let bare := bare_of l in
+  let stripped := strip bare in
+  match closer with
+  | Some c =>
+      if String.eqb stripped c then true :: closer_mask r None in_story 0
+      else false :: closer_mask r closer in_story 0
+  | None =>
+      if in_story || startswith l ":: " || startswith stripped "@start " then
+        let in_story' := in_story || startswith l ":: " in
+        if startswith stripped "@py" then false :: closer_mask r (Some "@endpy") in_story' 0
+        else if startswith stripped "<<py" then false :: closer_mask r (Some ">>") in_story' 0
+        else if startswith stripped "~ " then
+          false :: closer_mask r None in_story' (eme_skip r (drop 2 stripped))
+        else false :: closer_mask r None in_story' 0
+      else false :: closer_mask r None in_story 0
+  end.
+Proof.
+  intros l r closer in_story. cbn [closer_mask]. cbv zeta. rewrite eme_skip_eq. reflexivity.
 Qed.
 
 Lemma mask_0 : forall l r closer in_story,
@@ -475,35 +532,52 @@ Proof.
       * rewrite within_none in H. cbn [zipdec rstrip_if]. f_equal. apply IH. exact H.
 Qed.
 
-(* ... and right-stripping changes nothing where the decorated lines are tidy *)
+(* ... and right-stripping changes nothing: a story line is stored right-stripped already (F17k); the
+   line that closes a Python block is stored as `bare`, and is tidy by hypothesis *)
+Lemma tidy_at_none : forall dr m mr l r, tidy_at (None :: dr) (m :: mr) (l :: r) = tidy_at dr mr r.
+Proof. intros dr [|] mr l r; reflexivity. Qed.
+Lemma tidy_at_false : forall d dr mr l r, tidy_at (d :: dr) (false :: mr) (l :: r) = tidy_at dr mr r.
+Proof. intros [d|] dr mr l r; reflexivity. Qed.
+
 Lemma rstrip_at_tidy : forall ls dec closer in_story skip,
-  within dec (story_mask ls closer in_story skip) = true -> tidy_at dec ls = true ->
+  within dec (story_mask ls closer in_story skip) = true ->
+  tidy_at dec (closer_mask ls closer in_story skip) ls = true ->
   rstrip_at dec (spcop ls closer in_story skip) = spcop ls closer in_story skip.
 Proof.
   unfold rstrip_at.
   induction ls as [|l r IH]; intros dec closer in_story skip H T; [reflexivity|].
   destruct dec as [|d dr]; [apply zipdec_nil|].
   destruct skip as [|k].
-  2:{ cbn [story_mask] in H. destruct d as [d|]; [simpl in H; discriminate|].
-      rewrite within_none in H. cbn [strip_comments_outside_python zipdec rstrip_if].
+  2:{ cbn [story_mask] in H. cbn [closer_mask] in T. destruct d as [d|]; [simpl in H; discriminate|].
+      rewrite within_none in H. rewrite tidy_at_none in T.
+      cbn [strip_comments_outside_python zipdec rstrip_if].
       f_equal. apply IH; assumption. }
-  rewrite mask_0 in H. rewrite spcop_0. cbv zeta in *.
+  rewrite mask_0 in H. rewrite cmask_0 in T. rewrite spcop_0. cbv zeta in *.
   destruct d as [d|].
-  - cbn [tidy_at] in T. apply andb_prop in T. destruct T as [Tl Tr].
-    unfold tidy in Tl. apply String.eqb_eq in Tl.
-    destruct closer as [c0|].
+  - destruct closer as [c0|].
     + destruct (String.eqb (strip (bare_of l)) c0);
         apply within_some in H; destruct H as [Hm [_ H]]; [|discriminate].
+      cbn [tidy_at] in T. apply andb_prop in T. destruct T as [Tl Tr].
+      unfold tidy in Tl. apply String.eqb_eq in Tl.
       cbn [zipdec rstrip_if]. rewrite Tl. f_equal. apply IH; assumption.
-    + repeat match goal with |- context [if ?b then _ else _] => destruct b end;
-        apply within_some in H; destruct H as [Hm [_ H]]; try discriminate;
-        cbn [zipdec rstrip_if]; rewrite Tl; f_equal; apply IH; assumption.
-  - cbn [tidy_at] in T.
-    destruct closer as [c0|].
-    + destruct (String.eqb (strip (bare_of l)) c0); rewrite within_none in H;
+    + destruct (in_story || startswith l ":: " || startswith (strip (bare_of l)) "@start ").
+      * destruct (startswith (strip (bare_of l)) "@py");
+          [|destruct (startswith (strip (bare_of l)) "<<py");
+            [|destruct (startswith (strip (bare_of l)) "~ ")]];
+          apply within_some in H; destruct H as [Hm [_ H]]; rewrite tidy_at_false in T;
+          cbn [zipdec rstrip_if]; rewrite rstrip_idem; f_equal; apply IH; assumption.
+      * apply within_some in H. destruct H as [Hm _]. discriminate.
+  - destruct closer as [c0|].
+    + destruct (String.eqb (strip (bare_of l)) c0); rewrite within_none in H; rewrite tidy_at_none in T;
         cbn [zipdec rstrip_if]; f_equal; apply IH; assumption.
-    + repeat match goal with |- context [if ?b then _ else _] => destruct b end;
-        rewrite within_none in H; cbn [zipdec rstrip_if]; f_equal; apply IH; assumption.
+    + destruct (in_story || startswith l ":: " || startswith (strip (bare_of l)) "@start ").
+      * destruct (startswith (strip (bare_of l)) "@py");
+          [|destruct (startswith (strip (bare_of l)) "<<py");
+            [|destruct (startswith (strip (bare_of l)) "~ ")]];
+          rewrite within_none in H; rewrite tidy_at_none in T;
+          cbn [zipdec rstrip_if]; f_equal; apply IH; assumption.
+      * rewrite within_none in H. rewrite tidy_at_none in T.
+        cbn [zipdec rstrip_if]. f_equal. apply IH; assumption.
 Qed.
 
 (* (a), pre-pass form: trailing comments on story lines are invisible to everything after the
@@ -799,7 +873,7 @@ Definition step_tail1 (lines : list string) (j : nat) (st1 : pstate) : pres (pst
   if String.eqb stripped "@metadata" then POk (set_in_metadata st1 true, S j) else
   let phase2 : pstate + (pstate * nat) :=
     if st_in_metadata st1 then
-      if negb (nonempty stripped) then inr (st1, S j)
+      if negb (nonempty stripped) || startswith stripped "#" then inr (st1, S j)
       else if startswith line " " || startswith line (String (ascii_of_nat 9) EmptyString) then
         match find_char stripped ":" with
         | Some k =>
@@ -863,7 +937,7 @@ Proof.
   destruct (String.eqb (strip line) "@metadata"); [sr_ok|].
   cbn [st_in_metadata set_locs].
   destruct (st_in_metadata st).
-  - destruct (negb (nonempty (strip line))); [sr_ok|].
+  - destruct (negb (nonempty (strip line)) || startswith (strip line) "#"); [sr_ok|].
     destruct (startswith line " " || startswith line (String (ascii_of_nat 9) "")).
     + destruct (find_char (strip line) ":"); [sr_ok|].
       apply (step_tail2_sim (set_in_metadata st false) l2 Hl).
@@ -1110,7 +1184,7 @@ Definition pre_emit (l : string) (closer : option string) (in_story : bool) : st
   let stripped := strip bare in
   match closer with
   | Some c => if String.eqb stripped c then bare else l
-  | None => if in_story || startswith l ":: " || startswith stripped "@start " then bare else l
+  | None => if in_story || startswith l ":: " || startswith stripped "@start " then rstrip bare else l
   end.
 
 Definition pre_next (l : string) (r : list string) (closer : option string) (in_story : bool)
@@ -1188,7 +1262,7 @@ Qed.
 
 Lemma prepass_insert_gen : forall k ls cl ins sk ins2 c,
   prepass_at ls cl ins sk k = Some (None, ins2, 0) -> k < List.length ls -> is_hash c = true ->
-  spcop (insert_at k c ls) cl ins sk = insert_at k (if ins2 then bare_of c else c) (spcop ls cl ins sk).
+  spcop (insert_at k c ls) cl ins sk = insert_at k (if ins2 then rstrip (bare_of c) else c) (spcop ls cl ins sk).
 Proof.
   induction k as [|k IH]; intros ls cl ins sk ins2 c H Hk Hc.
   - simpl in H. injection H as E1 E2 E3. subst cl ins sk. rewrite !insert_at_0, spcop_0. cbv zeta.
@@ -1288,15 +1362,16 @@ Proof.
     apply fuel_irrel; lia.
 Qed.
 
-(* a comment line met at top level is skipped *)
-Lemma hash_step : forall lines j c st, is_hash c = true -> st_in_metadata st = false ->
+(* a comment line met at top level is skipped: in the import section, in the @metadata block
+   (fix F17l), before the first passage, in a passage *)
+Lemma hash_step : forall lines j c st, is_hash c = true ->
   parse_step pp xs lines j c st = POk (st, S j).
 Proof.
-  intros lines j c st Hc Hm. unfold is_hash in Hc. unfold parse_step. cbv zeta.
+  intros lines j c st Hc. unfold is_hash in Hc. unfold parse_step. cbv zeta.
   rewrite Hc. rewrite orb_true_r.
   destruct (st_in_imports st) eqn:Ei; [reflexivity|].
   rewrite (hash_not_eq (strip c) "@metadata" "@" "metadata" Hc) by reflexivity.
-  rewrite Hm.
+  destruct (st_in_metadata st) eqn:Hm; [reflexivity|].
   rewrite (startswith_hash_other _ "@" "start " Hc) by reflexivity.
   fold (is_hash c) in Hc. rewrite (is_hash_not_header c Hc).
   destruct (st_current st) as [cp|]; [|reflexivity].
@@ -1415,11 +1490,11 @@ Qed.
 (* the loop on the input with the comment line inserted, against the loop on the input *)
 Lemma loop_insert : forall f stk,
   is_hash c = true ->
-  loop_to pp xs f L k 0 init_state = Some stk -> st_in_metadata stk = false ->
+  loop_to pp xs f L k 0 init_state = Some stk ->
   loop_rel (parse_loop pp xs (S (List.length L)) L (List.length L) 0 init_state)
            (parse_loop pp xs (S (List.length L')) L' (List.length L') 0 init_state).
 Proof.
-  intros f stk Hc Hto Hm.
+  intros f stk Hc Hto.
   assert (HL' : List.length L' = S (List.length L)) by apply insert_at_length.
   rewrite (loop_split pp xs xs_ok L f k (S (List.length L)) 0 init_state stk Hto) by lia.
   destruct (loop_to_sim f 0 init_state [] stk Hto (loc_rel_refl _)) as [lk [Hto' Hlk]].
@@ -1431,7 +1506,7 @@ Proof.
   2:{ symmetry. cbn [parse_loop].
       replace (S (List.length L) <=? k) with false by (symmetry; apply Nat.leb_gt; lia).
       unfold L'. rewrite nth_error_insert_eq by lia.
-      rewrite hash_step; [reflexivity|exact Hc|exact Hm]. }
+      rewrite hash_step; [reflexivity|exact Hc]. }
   apply loop_sim2; [lia|exact Hlk].
 Qed.
 
@@ -1440,23 +1515,24 @@ End InsertSim.
 (* ---- (b), whole compiler model ---- *)
 
 (* Position k of the input is at top level: the pre-pass is outside Python code there (no open
-   @py:/<<py block, no continuation line of a ~ statement pending), the main loop arrives at index k
-   (it is not inside a block that an extractor is consuming), and it is not inside the @metadata block. *)
+   @py:/<<py block, no continuation line of a ~ statement pending) and the main loop arrives at index k
+   (it is not inside a block that an extractor is consuming).  Since fix F17l the @metadata block is
+   no exception any more. *)
 Definition top_level_at (pp : pyparse) (xs : extractors) (ls : list string) (k : nat) : bool :=
   match prepass_at ls None false 0 k with
   | Some (None, _, 0) =>
       match loop_to pp xs (S (List.length ls)) (spcop ls None false 0) k 0 init_state with
-      | Some stk => negb (st_in_metadata stk)
+      | Some _ => true
       | None => false
       end
   | _ => false
   end.
 
-(* the inserted line as the main loop sees it: without its own trailing // comment when it stands in
-   the story (after the first passage header), as written in the preamble *)
+(* the inserted line as the main loop sees it: without its own trailing // comment and right-stripped
+   when it stands in the story (after the first passage header), as written in the preamble *)
 Definition seen_comment (ls : list string) (k : nat) (c : string) : string :=
   match prepass_at ls None false 0 k with
-  | Some (_, true, _) => bare_of c
+  | Some (_, true, _) => rstrip (bare_of c)
   | _ => c
   end.
 
@@ -1470,14 +1546,15 @@ Proof.
   destruct (prepass_at ls None false 0 k) as [[[[cl|] ins] [|sk]]|] eqn:Ep; try discriminate.
   destruct (loop_to pp xs (S (List.length ls)) (spcop ls None false 0) k 0 init_state) as [stk|] eqn:El;
     [|discriminate].
-  apply negb_true_iff in Ht.
+  clear Ht.
   unfold parse. rewrite (prepass_insert_gen k ls None false 0 ins c Ep Hk Hc).
   set (L := spcop ls None false 0) in *.
-  set (c' := if ins then bare_of c else c).
-  assert (Hc' : is_hash c' = true) by (unfold c'; destruct ins; [apply is_hash_bare|]; exact Hc).
+  set (c' := if ins then rstrip (bare_of c) else c).
+  assert (Hc' : is_hash c' = true).
+  { unfold c'. destruct ins; [|exact Hc]. unfold is_hash. rewrite strip_rstrip. apply is_hash_bare. exact Hc. }
   assert (HkL : k < List.length L) by (unfold L; rewrite spcop_length; exact Hk).
   assert (Hloc' : xs_local xs L k c') by (unfold c'; destruct ins; exact Hloc).
-  pose proof (loop_insert pp xs Hx L k c' HkL Hloc' _ stk Hc' El Ht) as R.
+  pose proof (loop_insert pp xs Hx L k c' HkL Hloc' _ stk Hc' El) as R.
   destruct (parse_loop pp xs (S (List.length L)) L (List.length L) 0 init_state) as [s|dd|kk|].
   - destruct R as [l3 [-> H3]]. cbn [pbind].
     change (flush_current (set_locs s l3)) with (flush_current s).
@@ -2050,8 +2127,30 @@ Proof. intros ls dec. exact (prepass_decorate_gen ls dec None false 0). Qed.
 Lemma prepass_insert : forall k ls ins c,
   prepass_at ls None false 0 k = Some (None, ins, 0) -> k < List.length ls -> is_hash c = true ->
   strip_comments_outside_python (insert_at k c ls) None false 0 =
-  insert_at k (if ins then bare_of c else c) (strip_comments_outside_python ls None false 0).
+  insert_at k (if ins then rstrip (bare_of c) else c) (strip_comments_outside_python ls None false 0).
 Proof. intros k ls ins c. exact (prepass_insert_gen k ls None false 0 ins c). Qed.
+
+(* nothing but the mask is asked when no decorated line closes a Python block *)
+Definition no_closer_decorated (dec : list (option dcomment)) (cm : list bool) : bool :=
+  forallb (fun dm => match dm with (Some _, true) => false | _ => true end) (combine dec cm).
+
+Lemma tidy_at_no_closer : forall dec cm ls, no_closer_decorated dec cm = true -> tidy_at dec cm ls = true.
+Proof.
+  unfold no_closer_decorated.
+  induction dec as [|d dr IH]; intros cm ls H; [reflexivity|].
+  destruct cm as [|m mr]; [destruct d; reflexivity|]. destruct ls as [|l r]; [destruct d, m; reflexivity|].
+  cbn [combine forallb] in H. apply andb_prop in H. destruct H as [H1 H2].
+  destruct d as [d|], m; try discriminate H1; cbn [tidy_at]; apply IH; exact H2.
+Qed.
+
+Lemma parse_decorate_no_closer : forall pp is_call xs ls dec,
+  within dec (story_mask ls None false 0) = true ->
+  no_closer_decorated dec (closer_mask ls None false 0) = true ->
+  parse pp is_call xs (decorate dec ls) = parse pp is_call xs ls.
+Proof.
+  intros pp is_call xs ls dec H N. apply parse_decorate. unfold decorable. rewrite H. simpl.
+  apply tidy_at_no_closer. exact N.
+Qed.
 
 Lemma hash_line_same_story_blockfree_lemma : forall pp is_call xs ls k c s,
   extractors_ok xs ->
